@@ -258,7 +258,8 @@ func numericSnippet(r *Rng, n int) (string, string) {
 		if signed {
 			return fmt.Sprintf("var %s: %s = 0\n for i in InclusiveRange<%s>(%d, -%d, step: -%d) { %s = %s + i }\n out.append(%s.toString())", v, t, t, 2+r.Intn(4), 1+r.Intn(4), 1+r.Intn(2), v, v, v), "num:range-negative-step:" + t
 		}
-		return fmt.Sprintf("var %s: %s = 0\n for i in InclusiveRange<%s>(%d, 0, step: 1) { %s = %s + i }\n out.append(%s.toString())", v, t, t, r.Intn(3), v, v, v), "num:range-empty-or-single:" + t
+		k := r.Intn(3)
+		return fmt.Sprintf("var %s: %s = 0\n for i in InclusiveRange<%s>(%d, %d, step: 1) { %s = %s + i }\n out.append(%s.toString())", v, t, t, k, k, v, v, v), "num:range-single:" + t
 	case 3: // big integers
 		return fmt.Sprintf("let %s: Int = 18446744073709551615 + %d\n out.append((%s * %s).toString())\n out.append((%s / 3).toString())\n out.append((%s << %d).toString())\n let %su: UInt = UInt(%s)\n out.append((%su %% 1000000007).toString())",
 			v, r.Intn(5), v, v, v, v, 1+r.Intn(70), v, v, v), "num:big-int"
@@ -310,6 +311,10 @@ func C36GenProgram(r *Rng, id int, numeric bool) C36Program {
 	var body []string
 	for i := 0; i < n; i++ {
 		s, f := snippet(r, i)
+		for numeric && strings.Contains(f, "maybe") {
+			// the metering harness wants complete runs: no deliberately failing statements
+			s, f = snippet(r, i)
+		}
 		body = append(body, s)
 		p.Forms = append(p.Forms, f)
 	}
